@@ -1,37 +1,28 @@
 """C08 - coloured text behaves exactly like the underlying string.
-Bounded-symbolic contracts (chunk lists of <= 2/3 chunks, all texts, colours, indexes and bounds symbolic)
-+ the model-based bounded driver.  Nothing here is counted as an unbounded proof."""
-import time
-
-from vlib.common import finish
-from vlib.bounded import Bounded
-from harness import c08 as driver
-from checks._proof import proof_subobligations
+Proof tier: contracts on the real CHText methods for texts with ANY number of chunks (loop invariants, folds with
+lemmas proved by induction, the canonical-form lemma) - obligations `*.any_length`; bounded-symbolic contracts (<= 2/3
+chunks; format widths from a sample; <= 3 operands per constructor / join call) are labelled bounded and not counted;
+the model-based bounded driver runs as the complement (format grammar, operation histories)."""
+from checks._proof import run_proof_check
 
 PROP = 'C08'
 
 
 def run():
-    t0 = time.time()
-    pv, pu, pe, ppart, passumed = proof_subobligations(PROP, ['contracts.c08_chtext'], ['ak.color'])
-    b = Bounded(PROP, 'harness.c08')
-    try:
-        driver.run(b)
-    except Exception as e:      # noqa
-        b.error(f"bounded driver crashed: {e!r}")
-    cov = b.coverage(
-        "exhaustive slices/indexes over -8..8 and None, fixed_len 0..9 and a format-spec grid on fixed texts, then seeded "
-        "sequences of <= 8 public CHText operations over 3 colours against a list-of-(char, colour) model cross-checked "
-        "with a plain str shadow; non-trivial = some step has >= 2 chunks and a slice crosses a chunk boundary",
-        extra=ppart)
-    seen, viol = set(), []
-    for v in pv + b.violations():
-        if v.key not in seen:
-            seen.add(v.key)
-            viol.append(v)
-    return finish(PROP, 'exploration', viol, pu, pe + b.errors, cov, passumed + [
-        "bounded-symbolic obligations: chunk lists of at most 2 (quick) / 3 (thorough) chunks; texts, colour prefixes, "
-        "indexes, slice bounds and lengths are arbitrary (symbolic)",
-        "format specs limited to [[fill]align][width]['s'] without the zero flag; fixed_len n >= 0",
-        "'t += [.., t, ..]' skipped (operand mutates while consumed; str has no analogue)",
-        "colour of fill characters not demanded"], t0)
+    return run_proof_check(
+        PROP, ['contracts.c08_chtext'], ['ak.color'], level='proof', harness='harness.c08',
+        bounded_rule="exhaustive slices/indexes over -8..8 and None, fixed_len 0..9 and a format-spec grid on fixed texts, "
+                     "then seeded sequences of <= 8 public CHText operations over 3 colours against a list-of-(char, colour) "
+                     "model cross-checked with a plain str shadow; non-trivial = some step has >= 2 chunks and a slice "
+                     "crosses a chunk boundary",
+        extra_assumptions=[
+            "induction over operation histories is the meta-level step: every public operation has the representation "
+            "invariant as its only pre-condition on a text and re-establishes it (discharged per operation)",
+            "induction schema over the naturals for the fold lemmas and the two ghost-walk lemmas (base/step and every hint "
+            "assertion are discharged obligations)",
+            "== between texts: chunks have the suffix ColorFmt gives them (suffix determined by prefix; C09 `shape`)",
+            "bounded inside the proof tier (labelled bounded_symbolic, not counted): format widths from {none, 0, 1, 2, 7, 10, "
+            "25}; at most 3 arguments per constructor / join call and 3 items per list operand",
+            "format specs limited to [[fill]align][width]['s'] without the zero flag; fixed_len n >= 0",
+            "'t += [.., t, ..]' skipped in the bounded driver (operand mutates while consumed; str has no analogue)",
+            "colour of fill characters not demanded"])
